@@ -3,7 +3,7 @@
 use std::collections::{BTreeSet, HashSet};
 
 use bc_envelope::prelude::*;
-use bc_envelope::EnvelopeError;
+use bc_envelope::{Attachments, EnvelopeError};
 
 use super::common::*;
 use crate::ctx::Ctx;
@@ -30,6 +30,15 @@ pub fn run(ctx: &mut Ctx) {
         let mut rng = ctx.rng(case);
         let (_m, base) = universe(&mut rng, GenCfg::small(), case);
         let base = if base.is_assertion() || base.is_obscured() { Envelope::new("holder") } else { base };
+        // a third of the holders already have obscured parts (never the root itself)
+        let base_plain = base.clone();
+        let base = if case % 3 == 0 {
+            let k0 = fresh_key(&mut rng);
+            let ob = gen::obscure_random(&base, &mut rng, 2, &k0);
+            if ob.is_obscured() { base } else { ctx.count("holders_with_obscured_parts"); ob }
+        } else {
+            base
+        };
         // attachments: multiset of (payload, vendor, conformsTo)
         let k = rng.below(6);
         let mut added: Vec<(Envelope, String, Option<String>)> = Vec::new();
@@ -46,6 +55,18 @@ pub fn run(ctx: &mut Ctx) {
             };
             let vendor = if !added.is_empty() && rng.chance(1, 3) { added[rng.below(added.len())].1.clone() } else { rng.pick(&VENDORS).to_string() };
             let conforms = if rng.chance(1, 2) { Some(rng.pick(&CONFORMS).to_string()) } else { None };
+            // payloads may themselves be (partly) obscured
+            let payload = match rng.below(10) {
+                0 => payload.elide(),
+                1 => payload.compress().unwrap_or(payload),
+                _ => payload,
+            };
+            // one attachment (digest) in one form only: the same attachment once plain and once with an
+            // obscured payload is the same assertion twice, and which form stays is order dependent
+            let ad = d32(&Envelope::new_attachment(payload.clone(), &vendor, conforms.as_deref()));
+            if added.iter().any(|(p, v, c)| d32(&Envelope::new_attachment(p.clone(), v, c.as_deref())) == ad && !p.is_identical_to(&payload)) {
+                continue;
+            }
             e = match rng.below(2) {
                 0 => e.add_attachment(payload.clone(), &vendor, conforms.as_deref()),
                 _ => e.add_assertion_envelope(Envelope::new_attachment(payload.clone(), &vendor, conforms.as_deref())).unwrap(),
@@ -86,6 +107,34 @@ pub fn run(ctx: &mut Ctx) {
                         }
                     }
                 }
+            }
+        }
+        // the Attachments container: adding the same attachments through it gives the same envelope,
+        // and reading them back from the envelope gives the same container
+        {
+            ctx.eval();
+            ctx.count("container_checks");
+            let mut cont = Attachments::new();
+            for (p, v, c) in &added {
+                cont.add(p.clone(), v.as_str(), c.as_deref());
+            }
+            match trap::guard(|| (cont.add_to_envelope(base.clone()), Attachments::try_from_envelope(&e))) {
+                Ok((via, back)) => {
+                    if env_bytes(&via) != env_bytes(&e) {
+                        ctx.violation("container/add_to_envelope-differs", "Attachments::add_to_envelope gives another envelope than add_attachment", replay());
+                    }
+                    match back {
+                        Ok(b) => {
+                            let want: BTreeSet<D32> = added.iter().map(|(p, v, c)| d32(&Envelope::new_attachment(p.clone(), v, c.as_deref()))).collect();
+                            let all_present = want.iter().all(|d| b.get(&bc_components::Digest::from_data(*d)).is_some());
+                            if !all_present || b.is_empty() != want.is_empty() || b != cont {
+                                ctx.violation("container/try_from_envelope-differs", "Attachments::try_from_envelope does not give back the added attachments", replay());
+                            }
+                        }
+                        Err(err) => ctx.violation("container/try_from_envelope-err", &format!("{}", err), replay()),
+                    }
+                }
+                Err(p) => ctx.violation(&format!("container/panic/{}", p.signature()), &format!("{:?}", p), replay()),
             }
         }
         // filters: every (vendor?, conformsTo?) combination incl. non-existent values
@@ -166,7 +215,7 @@ pub fn run(ctx: &mut Ctx) {
         let nt = rng.below(4);
         let mut kv_types: HashSet<u64> = HashSet::new();
         let mut other_types: Vec<Envelope> = Vec::new();
-        let mut te = base.clone();
+        let mut te = base_plain.clone();
         for _ in 0..nt {
             if rng.chance(1, 2) {
                 let v = *rng.pick(&crate::gen::KNOWN);
